@@ -68,12 +68,12 @@ Fixpoint where_rec (n : node) : node :=
    ================================================================================================ *)
 Definition is_name (n : node) : bool := tt_in n T_Name.   (* ttype in T.Name: any Name subtype *)
 
-(* the early exit: CREATE and TABLE among the siblings' values (any case) and no sibling whose
-   value is exactly the upper-case AS *)
+(* the early exit: CREATE and TABLE among the siblings' values and no sibling whose value is AS
+   (all three in any letter case) *)
 Definition fn_early_exit (l : list node) : bool :=
   existsb (fun tk => text_eqb (upper (nvalue tk)) s_CREATE) l
   && existsb (fun tk => text_eqb (upper (nvalue tk)) s_TABLE) l
-  && negb (existsb (fun tk => text_eqb (nvalue tk) s_AS) l).
+  && negb (existsb (fun tk => text_eqb (upper (nvalue tk)) s_AS) l).
 
 (* name ws* Parenthesis (ws* Over)?  becomes one Function; scanning continues after it *)
 Fixpoint fn_run (skip : nat) (l : list node) : list node :=
